@@ -145,6 +145,20 @@ class Problem:
             for j in range(2, d):
                 t = (z[j] - self.mu[j]) * self.inv_s[j]
                 acc = acc - 0.5 * t * t
+        elif f == 'twosum':
+            # two separated Gaussian modes, summed (closed-form evidence)
+            g1 = z[0] * 0.0
+            g2 = z[0] * 0.0 + self.off2
+            for j in range(d):
+                t = (z[j] - self.mu[j]) * self.inv_s[j]
+                g1 = g1 - 0.5 * t * t
+                t = (z[j] - self.mu2[j]) * self.inv_s[j]
+                g2 = g2 - 0.5 * t * t
+            acc = np.logaddexp(g1, g2)
+        elif f == 'halflog':
+            with np.errstate(divide='ignore', invalid='ignore'):
+                acc = np.where(z[0] < self.a, -np.inf,
+                               np.log(np.maximum(z[0] - self.a, 0.0)))
         elif f == 'halfspace':
             acc = np.where(z[0] < self.a, -np.inf, self.k * (z[0] - self.a))
         elif f == 'stairs':
@@ -239,6 +253,50 @@ class Problem:
         if self.blob == 'two_single':
             return np.array([tuple(blob_tuple)], dtype=dtype)[0]
         return np.asarray(blob_tuple[0]).astype(dtype)
+
+
+def closed_form(spec):
+    """(log Z, posterior means or None per coordinate) for the families with
+    an analytic answer; None otherwise.  Identity prior only."""
+    from scipy.stats import norm, truncnorm
+    p = spec.get('params', {})
+    d, f = spec['d'], spec['family']
+    mu = np.asarray(p.get('mu', [0.5] * d), dtype=float)
+    sg = np.asarray(p.get('sigma', [0.1] * d), dtype=float)
+
+    def gauss_z(m, s, lo=0.0, hi=1.0):
+        return s * np.sqrt(2 * np.pi) * (norm.cdf((hi - m) / s) -
+                                         norm.cdf((lo - m) / s))
+
+    def gauss_mean(m, s, lo=0.0, hi=1.0):
+        return truncnorm.mean((lo - m) / s, (hi - m) / s, loc=m, scale=s)
+
+    if f == 'gauss':
+        z = [gauss_z(mu[j], sg[j]) for j in range(d)]
+        return float(np.sum(np.log(z))), [float(gauss_mean(mu[j], sg[j]))
+                                          for j in range(d)]
+    if f == 'twosum':
+        mu2 = np.asarray(p.get('mu2', [0.3] * d), dtype=float)
+        off2 = float(p.get('off2', -1.0))
+        z1 = np.prod([gauss_z(mu[j], sg[j]) for j in range(d)])
+        z2 = np.exp(off2) * np.prod([gauss_z(mu2[j], sg[j])
+                                     for j in range(d)])
+        means = [float((z1 * gauss_mean(mu[j], sg[j]) +
+                        z2 * gauss_mean(mu2[j], sg[j])) / (z1 + z2))
+                 for j in range(d)]
+        return float(np.log(z1 + z2)), means
+    if f == 'halflog':
+        a = float(p.get('a', 0.6))
+        return float(np.log((1 - a) ** 2 / 2)), [a + 2 * (1 - a) / 3] + \
+            [0.5] * (d - 1)
+    if f == 'wrap':
+        z = [gauss_z(0.0, sg[0], -0.5, 0.5)] + [
+            gauss_z(mu[j], sg[j]) for j in range(1, d)]
+        return float(np.sum(np.log(z))), [None] + [
+            float(gauss_mean(mu[j], sg[j])) for j in range(1, d)]
+    if f == 'constant':
+        return 0.0, [0.5] * d
+    return None
 
 
 def make_prior(spec):
